@@ -315,10 +315,11 @@ async def serve_http(loop, stream, log, *, zone, addr, conn_id, is_proxy=False, 
             stream.close()
             return
         if m is None:
-            if stream.eof:
-                stream.close()
-                return
-            if not await stream.more(idle):
+            if stream.eof or not await stream.more(idle):
+                if len(stream.buf) > pos:
+                    # bytes of a request that never completed (e.g. a body streamed upstream and then abandoned)
+                    log.append({"zone": zone, "addr": addr, "conn": conn_id, "tls": ztls, "partial": True,
+                                "raw": bytes(stream.buf[pos:]), "t": loop.time()})
                 stream.close()
                 return
             continue
